@@ -456,7 +456,7 @@ class World:
                     # the server answered - but treats a registered client as unregistered
                     # a registered client treated as unregistered: nothing it sends is delivered any more, its views and
                     # its later clean-up are gone too - every property about registered clients' commands is concerned
-                    self.violate("registered-client-gated", exp.props | {"C01", "C02", "C03", "C04", "C05", "C06"}, exp.shape,
+                    self.violate("registered-client-gated", exp.props | {"C01", "C02", "C03", "C04", "C05", "C06", "C15", "C16", "C19"}, exp.shape,
                                  "after %r the registered client %s is answered 451: %s"
                                  % (line, self.model.conn.get(cid, {}).get("nick"), [m.raw for m in got][:3]))
                     self.dead = True
@@ -545,6 +545,26 @@ class World:
             self.noise_kinds[k] += 1
         return out
 
+    def _fragment(self, cid, nick):
+        """an unterminated last line that would be a complete, valid command with an effect on others if it were
+        executed: the socket closes in the middle of a line - the line never happened"""
+        u = self.model.users.get(nick) if nick else None
+        chans = sorted(u.channels) if u else []
+        others = sorted(n for n in self.model.users if n != nick and n != MON)
+        cands = ["PRIVMSG %s :a fragment, never to be delivered" % MON, "NICK frag%d" % self.step_no, "JOIN #frag%d" % self.step_no]
+        if chans:
+            ch = chans[self.step_no % len(chans)]
+            cands += ["TOPIC %s :topic from a fragment" % ch, "MODE %s +m" % ch, "PRIVMSG %s :fragment to the channel" % ch,
+                      "PART %s" % ch]
+            if others:
+                o = others[self.step_no % len(others)]
+                cands += ["KICK %s %s" % (ch, o), "MODE %s -o %s" % (ch, o), "INVITE %s %s" % (o, ch)]
+        if others:
+            cands.append("PRIVMSG %s :fragment for you" % others[self.step_no % len(others)])
+        if u is not None and u.is_oper and others:
+            cands.append("KILL %s :fragment" % others[0])
+        return cands[self.step_no % len(cands)]
+
     def end_client(self, cid, how="close"):
         """client side ending; waits until the server has forgotten the user"""
         c = self.clients[cid]
@@ -561,7 +581,7 @@ class World:
         elif how == "halfclose":
             c.half_close()
         elif how == "midline":
-            c.send_raw(b"PRIVMSG " + (nick or "x").encode() + b" :unterminated")
+            c.send_raw(self._fragment(cid, nick).encode("utf-8"))
             c.close()
         elif how == "badutf8":
             c.send_raw(b"PRIVMSG x :\xff\xfe\xfd\r\n")
@@ -614,7 +634,7 @@ class World:
             if how == "rst":
                 c.close_rst()
             elif how == "midline":
-                c.send_raw(b"PRIVMSG x :unterminated")
+                c.send_raw(self._fragment(cid, self.model.conn.get(cid, {}).get("nick")).encode("utf-8"))
                 c.close()
             else:
                 c.close()
